@@ -56,7 +56,7 @@ var jsFiles = [][]string{
 		"/** @param x */\n{template .u}\n{$x}\n{/template}\n",
 		"{namespace c}\n/** @param? p */\n{template .v}\n{$p}\n{/template}\n/** */\n{template .w}\nw\n{/template}\n/** */\n{template .y}\ny\n{/template}\n"},
 	// 1: map literals and global maps/lists
-	{"{namespace a}\n/** @param x\n @param l */\n{template .t}\n{let $m: ['z': 1, 'y': $x, 'x': [1, 2], 'w': 'q'] /}{$m}{keys(['b': 1, 'a': 2])}{G_MAP}{G_STR}{foreach $i in $l}{$i}{index($i)}{/foreach}\n{/template}\n"},
+	{"{namespace a}\n/** @param x\n @param l */\n{template .t}\n{let $m: ['z': 1, 'y': $x, 'x': [1, 2], 'w': 'q'] /}{$m}{keys(['b': 1, 'a': 2])}{G_MAP}{G_STR}{$m['404']}{$m['1st']}{$m['ok_key']}{$m['a-b']}{$x.0}{$x?.k[0]}{$x['k']?.z}{foreach $i in $l}{$i}{index($i)}{/foreach}\n{/template}\n"},
 	// 2: messages, incl. colliding placeholder base names
 	{"{namespace a}\n/** @param x\n @param y\n @param y_1 */\n{template .t}\n{msg desc=\"d\"}Hello <b>{$x}</b> {$x.y}{$y.y}{$y_1}{/msg}{msg desc=\"e\"}{plural $x}{case 1}one{default}{$x} many{/plural}{/msg}\n{/template}\n"},
 }
